@@ -249,9 +249,39 @@ func c06Remaining(c *Ctx) {
 				bad, at = "the count is overwritten inside the loop over the topics ("+describe(st.Val)+")", st
 			}
 		}
-	} else if ph, ok := retVal.(*ssa.Phi); ok {
-		nStores++
-		_ = ph
+	}
+	if nStores == 0 {
+		// an unnamed result: the returned value (directly, or through the cell a function with defers spills its
+		// results into) is a local that the loop over the topics carries from one iteration to the next
+		var vals []ssa.Value
+		if cell != nil {
+			for _, r := range *cell.Referrers() {
+				if st, ok := r.(*ssa.Store); ok && st.Addr == ssa.Value(cell) {
+					vals = append(vals, st.Val)
+				}
+			}
+		} else if retVal != nil {
+			vals = append(vals, retVal)
+		}
+		for _, v := range vals {
+			ph, ok := v.(*ssa.Phi)
+			if !ok {
+				continue
+			}
+			l := fi.InnermostLoop(ph.Block())
+			if l == nil || l.Head != ph.Block() {
+				continue
+			}
+			for i, e := range ph.Edges {
+				if !l.Blocks[ph.Block().Preds[i]] || e == ssa.Value(ph) {
+					continue
+				}
+				nStores++
+				if !flowsFrom(e, ph, 8) {
+					bad, at = "the count is overwritten inside the loop over the topics ("+describe(e)+")", firstInstrOf(ph.Block().Preds[i])
+				}
+			}
+		}
 	}
 	if nStores == 0 && bad == "" {
 		bad = "the result is never updated inside the loop over the topics"
@@ -411,4 +441,36 @@ func c06Lock(c *Ctx) {
 		{"offsetManager.poms", "offsetManager.pomsLock", "partition managers"},
 		{"offsetManager.broker", "offsetManager.brokerLock", "cached coordinator"},
 	}, 6)
+}
+
+// flowsFrom: v is computed from w through arithmetic, conversions and merges.
+func flowsFrom(v, w ssa.Value, depth int) bool {
+	if v == w {
+		return true
+	}
+	if depth <= 0 {
+		return false
+	}
+	switch x := v.(type) {
+	case *ssa.UnOp:
+		return flowsFrom(x.X, w, depth-1)
+	case *ssa.BinOp:
+		return flowsFrom(x.X, w, depth-1) || flowsFrom(x.Y, w, depth-1)
+	case *ssa.Convert:
+		return flowsFrom(x.X, w, depth-1)
+	case *ssa.Phi:
+		for _, e := range x.Edges {
+			if e != v && flowsFrom(e, w, depth-1) {
+				return true
+			}
+		}
+	}
+	return false
+}
+
+func firstInstrOf(b *ssa.BasicBlock) ssa.Instruction {
+	if len(b.Instrs) == 0 {
+		return nil
+	}
+	return b.Instrs[0]
 }
